@@ -17,11 +17,12 @@ import (
 // ---------- callee naming ----------
 
 // CalleeName gives a canonical, type-resolved name for the callee of a call:
-//   static function/method   os.Rename, (*sync.Map).LoadOrStore, ~/content.ReadAll
-//   interface method         (~/content.Pusher).Push   (the declaring interface)
-//   builtin                  builtin:close
-//   field-held func value    field:~.CopyGraphOptions.PreCopy
-//   other dynamic            dyn:<kind>:<name>
+//
+//	static function/method   os.Rename, (*sync.Map).LoadOrStore, ~/content.ReadAll
+//	interface method         (~/content.Pusher).Push   (the declaring interface)
+//	builtin                  builtin:close
+//	field-held func value    field:~.CopyGraphOptions.PreCopy
+//	other dynamic            dyn:<kind>:<name>
 func CalleeName(c ssa.CallInstruction) string {
 	cc := c.Common()
 	if cc.IsInvoke() {
@@ -689,9 +690,9 @@ func constInt(v ssa.Value) (int64, bool) {
 // RetAtom is one way a result value of a Return is established.
 type RetAtom struct {
 	Ret   *ssa.Return
-	Val   ssa.Value       // resolved value (no phi / cell load at top level)
-	Edges []Edge          // phi edges that select Val (outermost first)
-	Store *ssa.Store      // for named-result cells: the store that establishes Val
+	Val   ssa.Value  // resolved value (no phi / cell load at top level)
+	Edges []Edge     // phi edges that select Val (outermost first)
+	Store *ssa.Store // for named-result cells: the store that establishes Val
 }
 
 // Anchor is the program point after which the atom's value is fixed.
